@@ -127,20 +127,43 @@ def attribute_names(ctx, report):
 def region_creation(ctx, report):
     fn = ctx.index.get_function(DFXP, "RegionCreator._create_unique_regions")
     report.covered(fn)
-    tests = [n for n in walk_no_nested(fn.node) if isinstance(n, ast.If) and
+    from ..engines.pathrules import feasible_paths
+    from ..core.astutil import resolve_local
+    loops = [n for n in walk_no_nested(fn.node) if isinstance(n, ast.For) and
              any(isinstance(c, ast.Call) and (call_name(c) or "").endswith("new_tag") for c in walk_no_nested(n))]
-    if len(tests) != 1:
-        raise AnalysisError("_create_unique_regions: region-worthiness test not found")
-    t = tests[0].test
-    spec = None
-    for n in walk_no_nested(fn.node):
-        if isinstance(n, ast.For) and tests[0] in n.body:
-            spec = src(n.target)
-    parts = sorted(src(v) for v in t.values) if isinstance(t, ast.BoolOp) and isinstance(t.op, ast.Or) else [src(t)]
-    want = sorted(f"{spec}.{a}" for a in ("origin", "extent", "padding", "alignment"))
-    report.check(parts == want, "R-COMPLETE-CASES", (fn, tests[0]),
+    if len(loops) != 1:
+        raise AnalysisError("_create_unique_regions: loop creating region elements not found")
+    spec = src(loops[0].target)
+
+    def classify(n):
+        if isinstance(n, ast.Call) and (call_name(n) or "").endswith("new_tag") and n.args \
+                and isinstance(n.args[0], ast.Constant) and n.args[0].value == "region":
+            return "NEW"
+        return None
+    paths = feasible_paths(fn, classify, resolve_ast=lambda t: resolve_local(fn, t))
+    attrs = ("origin", "extent", "padding", "alignment")
+    want = sorted(f"{spec}.{a}" for a in attrs)
+    created, skipped, bad = [], [], []
+    for items in paths:
+        if not any(it[0] == "iter-end" for it in items):
+            continue        # zero iterations
+        tests = {it[1]: it[2] for it in items if it[0] == "test" and it[1].startswith(spec + ".")}
+        other = [it[1] for it in items if it[0] == "test" and not it[1].startswith(spec + ".")]
+        new = any(it[0] == "ev" and it[1] == "NEW" for it in items)
+        (created if new else skipped).append(tests)
+        if other and new:
+            bad.append({"extra_condition_on_region_creation": other})
+        if new and not any(v for v in tests.values()):
+            bad.append({"region_created_without_any_component": tests})
+        if not new and any(v for v in tests.values()):
+            bad.append({"component_present_but_no_region": tests})
+    if not created:
+        raise AnalysisError("_create_unique_regions: no path creates a region")
+    tested = sorted({k for t in created + skipped for k in t})
+    report.check(tested == want and not bad, "R-COMPLETE-CASES", (fn, loops[0]),
                  "a layout gets a region as soon as ANY of origin, extent, padding, alignment is present",
-                 {"tested": parts, "required": want}, "1")
+                 {"tested": tested, "required": want, "problems": bad[:4], "paths_creating": len(created),
+                  "paths_skipping": len(skipped)}, "1")
     col = ctx.index.get_function(DFXP, "RegionCreator._collect_unique_regions")
     report.covered(col)
     adds = [src(c.args[0]) for c in walk_no_nested(col.node) if isinstance(c, ast.Call) and
